@@ -120,6 +120,38 @@ def moments_from_ints(X, D, P, need_abs=True):
     return mo
 
 
+def moments_weighted(xs, counts, P, need_abs=True):
+    """Exact moments of the multiset in which xs[i] occurs counts[i] times (counts: positive ints, possibly
+    astronomically large - used for estimators whose sample size was driven up by repeated self-merging)."""
+    X, D = scale_ints(xs)
+    n = sum(counts)
+    R1 = sum(c * x for c, x in zip(counts, X))
+    mo = Moments()
+    mo.n = n
+    mo.P = P
+    mo.mean = Fraction(R1, n * D)
+    dev = [n * x - R1 for x in X]
+    nd = n * D
+    mo.m = {}
+    mo.a = {}
+    for p in range(2, P + 1):
+        s_ = sum(c * d ** p for c, d in zip(counts, dev))
+        mo.m[p] = Fraction(s_, n * nd ** p)
+        if p % 2 == 1 and need_abs:
+            sa = sum(c * abs(d) ** p for c, d in zip(counts, dev))
+            mo.a[p] = Fraction(sa, n * nd ** p)
+    mo.M = Fraction(max(abs(x) for x in X), D)
+    mo.minv = Fraction(min(X), D)
+    mo.maxv = Fraction(max(X), D)
+    if P >= 2 and mo.m[2] > 0:
+        mo.sigma = sqrt_frac(mo.m[2])
+        mo.kappa = 1 + mo.M / mo.sigma
+    else:
+        mo.sigma = Fraction(0)
+        mo.kappa = None
+    return mo
+
+
 def moments(xs, P, need_abs=True):
     X, D = scale_ints(xs)
     return moments_from_ints(X, D, P, need_abs)
